@@ -207,7 +207,7 @@ def branch_state(conds):
     return tr, ty
 
 
-def check_wrapper_dispatch(repo, f, R, rule="DISPATCH", must_forward=(), depth=0):
+def check_wrapper_dispatch(repo, f, R, rule="DISPATCH", must_forward=(), depth=0, ignore_kw=()):
     """The dispatch of a public wrapper: with a transformation -> construct_array_lincomb (whatever the coordinate types);
     without one: all cartesian -> cartesian; all spherical -> spherical; else mix; all sibling calls forward identical
     keywords, each the wrapper's own parameter."""
@@ -243,7 +243,7 @@ def check_wrapper_dispatch(repo, f, R, rule="DISPATCH", must_forward=(), depth=0
             R.check(same, rule, f.site, f"{g.name}(" + ", ".join(f"{k}={v}" for k, v in bound.items()) + ")",
                     f"the dispatch helper {g.name} must receive the wrapper's own parameters", where=f.where(call),
                     expected={p_: p_ for p_ in g.params}, found=bound)
-            return check_wrapper_dispatch(repo, g, R, rule, must_forward, depth=depth + 1)
+            return check_wrapper_dispatch(repo, g, R, rule, must_forward, depth=depth + 1, ignore_kw=ignore_kw)
     if len(sites) < 4:
         raise AnalysisError(rule, f"expected at least the 4 assembly calls in {f.qualname}, found {len(sites)}", f.where())
     classes = {ast.unparse(r.func) for _c, r in sites}
@@ -324,7 +324,9 @@ def check_wrapper_dispatch(repo, f, R, rule="DISPATCH", must_forward=(), depth=0
             R.check(ok, rule, f.site, f"coordinate types `{ast.unparse(ct_node)}` in branch {meth}",
                     "the coordinate types handed to the assembly must be the shells' own coord_type, in basis order",
                     where=f.where(call), expected=f"[shell.coord_type for shell in {basis_param}]", found=how)
-        kwsets.append((meth, call, kwargs_of_call(fn, call)))
+        # ignore_kw: keywords whose forwarding is the subject of another property (e.g. the screening tolerance for the exactness of
+        # the overlap: dropping it makes the result unscreened, i.e. exact)
+        kwsets.append((meth, call, {k_: v_ for k_, v_ in kwargs_of_call(fn, call).items() if k_ not in ignore_kw}))
     lin_ok = "any" in reach["lincomb"] or {"cartesian", "spherical", "mix"} <= reach["lincomb"]
     R.check(lin_ok, rule, f.site, "transformation honoured for every coordinate-type pattern",
             f"with a transformation given, construct_array_lincomb is only reached for {sorted(reach['lincomb'])} bases",
@@ -338,6 +340,8 @@ def check_wrapper_dispatch(repo, f, R, rule="DISPATCH", must_forward=(), depth=0
                 where=f.where(call), expected=ref, found=kws)
     wrapper_params = set(f.params)
     for p in kw_params:
+        if p in ignore_kw:
+            continue
         if p in required or p in wrapper_params:
             for meth, call, kws in kwsets:
                 R.check(kws.get(p) == p, rule, f.site, f"{p}= at {ast.unparse(call.func)} (site {kwsets.index((meth, call, kws))})",
@@ -351,13 +355,15 @@ def check_wrapper_dispatch(repo, f, R, rule="DISPATCH", must_forward=(), depth=0
     return len(sites)
 
 
-def check_wrapper_inputs(repo, f, R, rule="INPUTS"):
+def check_wrapper_inputs(repo, f, R, rule="INPUTS", ignore=()):
     """A public wrapper hands its own parameters to the assembly: no path replaces one of them by another value (a filtered,
     re-ordered, scaled or defaulted copy).  Value-preserving rebinding (np.asarray, x if c else x) is accepted."""
     from .formula import rebound_inputs, classify_rebinding, strip_restrict
     names = set(f.params)
     rebound, syms = rebound_inputs(f, names, rule=rule)
     for name, val, st in rebound:
+        if name in ignore:
+            continue  # this parameter is the subject of another property
         core, conds = strip_restrict(val) if hasattr(val, "atoms") else (val, [])
         kind = "different" if conds else classify_rebinding(core, syms[name])
         if kind == "unknown":
